@@ -460,6 +460,20 @@ def fam_merge(rule: str, tier: str, det):
     return out
 
 
+def fam_merge_deep(rule: str):
+    """nested programs: the blocks of fam_merge inside if / else / for bodies of one program"""
+    base = fam_merge(rule, "quick", None)
+    picks = base[:: max(1, len(base) // 60)]
+    loop = lambda body: ("for", ("tname", 9), ("plain", N(8)), body)   # noqa
+    out = []
+    for i in range(0, len(picks) - 2, 3):
+        a, b, c = picks[i:i + 3]
+        out.append([("if", F4, a, b)] + c)
+        out.append([loop([("if", F0, a, [])] + b)])
+        out.append(a + [loop(b), ("if", F4, [("pass",)], c)])
+    return out
+
+
 def rand_merge(rule: str, rnd, n: int):
     pool = fam_merge(rule, "quick", None)
     stmts = [s for b in pool for s in b]
@@ -823,6 +837,7 @@ def check(run, mods, wd, rnd) -> dict:
         fam = fam_merge(r, tier, det)
         run_blocks(f"(BMerge {r})", fname, fam, ctxs=("top", "top", "top", "if", "top", "for", "top", "def", "top", "else"))
         run_blocks(f"(BMerge {r})", fname, rand_merge(r, rnd, 40 if quick else 600), seeded=True)
+        run_blocks(f"(BMergeDeep {r})", fname, fam_merge_deep(r))
     timings["merge_s"] = round(time.time() - t0, 1)
     run_blocks("BImmRet", "simplify_assign_immediate_return", fam_immret(tier, rnd), ctxs=("def",), local=True)
     run_blocks("BFilter", "replace_with_filter", fam_filter(tier, rnd), ctxs=("top", "top", "def"))
